@@ -12,10 +12,18 @@ package help
 //@   ensures result == strfn($fn, s)
 //@ end
 
-// wrapFn: two-case wrapper (trusted: the body only builds the closure).
+// wrapFn: two-case wrapper. The two closures it can return are functions under contract; the closure value returned is
+// the function its contract describes (closure-definition rule of the VC generator).
+//@ func wrapFn$1
+//@   props C18 C19
+//@   modifies
+//@   ensures wrap1 {C18}: result == open ++ s ++ close
+//@ func wrapFn$2
+//@   props C18 C19
+//@   modifies
+//@   ensures wrap2 {C18}: result == s
 //@ func wrapFn
 //@   props C18 C19
-//@   trusted
 //@   modifies
 //@   ensures wrap.nonnil: result != nil
 //@   ensures wrap.fn {C18}: forall s string :: strfn(result, s) == ite(wrap, open ++ s ++ close, s)
